@@ -1177,8 +1177,511 @@ mod wrapper {
     }
 }
 
+
+// ------------------------------------------------- the server-side middleware ----
+
+/// `net::server::middleware::tsig::TsigMiddlewareSvc` in front of a service, with the reference
+/// implementation acting as the client. The request is signed by the reference (honestly, left
+/// unsigned, or with one thing wrong); the middleware must hand an authentic request to the
+/// service as it was before signing and with the key as metadata, sign every response the
+/// service yields (one, or a sequence announced with BeginTransaction) so that the reference
+/// verifies them as RFC 8945 5.3 chains them, replace a response that has no room for the TSIG
+/// record by a signed truncated one, pass unsigned traffic through untouched, and answer a
+/// request that fails verification itself, with the error RFC 8945 5.2 assigns, without calling
+/// the service.
+mod middleware {
+    use super::*;
+    use domain::base::message_builder::StreamTarget;
+    use domain::base::name::ToName;
+    use domain::net::server::message::{NonUdpTransportContext, Request, TransportSpecificContext, UdpTransportContext};
+    use domain::net::server::middleware::tsig::TsigMiddlewareSvc;
+    use domain::net::server::service::{CallResult, Service, ServiceError, ServiceFeedback, ServiceResult};
+    use domain::net::server::util::mk_builder_for_target;
+    use futures_util::stream::{Iter, StreamExt};
+    use std::collections::HashMap;
+    use std::future::{ready, Ready};
+    use std::sync::Mutex;
+
+    type Store = HashMap<(KeyName, Algorithm), Arc<Key>>;
+
+    #[derive(Clone, Copy, Debug, PartialEq, Eq)]
+    enum Plan {
+        /// one response of n records, the reserved octets left free
+        Single(usize),
+        /// one response filled until the builder refuses, the reserved octets left free
+        Brim,
+        /// one response filled until the builder refuses, the reservation ignored
+        Greedy,
+        /// k responses, BeginTransaction as an item of its own in front
+        MultiFeedbackItem(usize),
+        /// k responses, BeginTransaction attached to the first
+        MultiFeedbackOnFirst(usize),
+        /// k responses announced as a transaction, the g-th filled without regard for the reservation
+        MultiGreedy(usize, usize),
+        /// the service fails
+        Fails,
+        /// the service yields feedback only
+        Nothing,
+    }
+
+    #[derive(Default)]
+    struct Seen {
+        calls: usize,
+        request: Vec<u8>,
+        key_name: Option<Vec<u8>>,
+        reserved: u16,
+        /// what the service yielded, as octets, in order; the flag says "no room left for a TSIG record"
+        made: Vec<(Vec<u8>, bool)>,
+    }
+
+    #[derive(Clone)]
+    struct Inner {
+        plan: Plan,
+        seen: Arc<Mutex<Seen>>,
+    }
+
+    fn build(req: &Request<Vec<u8>, Option<Arc<Key>>>, n: Option<usize>, respect: bool, salt: usize) -> (AdditionalBuilder<StreamTarget<Vec<u8>>>, Vec<u8>) {
+        let b = mk_builder_for_target::<Vec<u8>>();
+        let mut a = b.start_answer(req.message(), Rcode::NOERROR).unwrap();
+        if respect {
+            a.set_push_limit(65535 - req.num_reserved_bytes() as usize);
+        }
+        let owner: Name<Vec<u8>> = match req.message().sole_question() {
+            Ok(q) => q.qname().to_name::<Vec<u8>>(),
+            Err(_) => Name::root_vec(),
+        };
+        let mut i = 0;
+        loop {
+            if let Some(n) = n {
+                if i >= n {
+                    break;
+                }
+            }
+            // (short records towards the end so that a filled message ends close to its limit)
+            let len = if n.is_some() { 1 + (i + salt) % 90 } else if a.as_slice().len() < 64000 { 250 } else { 1 };
+            let mut rd = vec![len as u8];
+            rd.extend(std::iter::repeat(b'a' + ((i + salt) % 26) as u8).take(len));
+            let rd = UnknownRecordData::from_octets(Rtype::TXT, rd).unwrap();
+            if a.push((owner.clone(), Class::IN, Ttl::from_secs(60), rd)).is_err() {
+                break;
+            }
+            i += 1;
+        }
+        let ab = a.additional();
+        let octets = ab.as_message().as_slice().to_vec();
+        (ab, octets)
+    }
+
+    impl Service<Vec<u8>, Option<Arc<Key>>> for Inner {
+        type Target = Vec<u8>;
+        type Stream = Iter<std::vec::IntoIter<ServiceResult<Vec<u8>>>>;
+        type Future = Ready<Self::Stream>;
+        fn call(&self, req: Request<Vec<u8>, Option<Arc<Key>>>) -> Self::Future {
+            let mut s = self.seen.lock().unwrap();
+            s.calls += 1;
+            s.request = req.message().as_slice().to_vec();
+            s.key_name = req.metadata().as_ref().map(|k| k.name().as_slice().to_vec());
+            s.reserved = req.num_reserved_bytes();
+            let mut items: Vec<ServiceResult<Vec<u8>>> = Vec::new();
+            let mut one = |s: &mut Seen, n: Option<usize>, respect: bool, salt: usize| {
+                let (ab, o) = build(&req, n, respect, salt);
+                s.made.push((o, !respect));
+                ab
+            };
+            match self.plan {
+                Plan::Single(n) => items.push(Ok(CallResult::new(one(&mut s, Some(n), true, 0)))),
+                Plan::Brim => items.push(Ok(CallResult::new(one(&mut s, None, true, 0)))),
+                Plan::Greedy => items.push(Ok(CallResult::new(one(&mut s, None, false, 0)))),
+                Plan::MultiFeedbackItem(k) => {
+                    items.push(Ok(CallResult::feedback_only(ServiceFeedback::BeginTransaction)));
+                    for i in 0..k {
+                        items.push(Ok(CallResult::new(one(&mut s, Some(1 + i % 7), true, i))));
+                    }
+                    items.push(Ok(CallResult::feedback_only(ServiceFeedback::EndTransaction)));
+                }
+                Plan::MultiFeedbackOnFirst(k) => {
+                    for i in 0..k {
+                        let cr = CallResult::new(one(&mut s, Some(1 + i % 7), true, i));
+                        items.push(Ok(if i == 0 { cr.with_feedback(ServiceFeedback::BeginTransaction) } else { cr }));
+                    }
+                    items.push(Ok(CallResult::feedback_only(ServiceFeedback::EndTransaction)));
+                }
+                Plan::MultiGreedy(k, g) => {
+                    items.push(Ok(CallResult::feedback_only(ServiceFeedback::BeginTransaction)));
+                    for i in 0..k {
+                        let ab = if i == g { one(&mut s, None, false, i) } else { one(&mut s, Some(1 + i % 7), true, i) };
+                        items.push(Ok(CallResult::new(ab)));
+                    }
+                    items.push(Ok(CallResult::feedback_only(ServiceFeedback::EndTransaction)));
+                }
+                Plan::Fails => items.push(Err(ServiceError::Refused)),
+                Plan::Nothing => items.push(Ok(CallResult::feedback_only(ServiceFeedback::EndTransaction))),
+            }
+            ready(futures_util::stream::iter(items))
+        }
+    }
+
+    fn lib_key_of(r: &RefKey) -> Arc<Key> {
+        let name: KeyName = Name::<Vec<u8>>::from_octets(r.name.clone()).unwrap().to_string().parse().unwrap();
+        Arc::new(Key::new(lib_alg(r.alg), &r.secret, name, Some(r.min_mac_len), Some(r.signing_len)).unwrap())
+    }
+
+    fn now_s() -> u64 {
+        std::time::SystemTime::now().duration_since(std::time::UNIX_EPOCH).unwrap().as_secs()
+    }
+
+    /// The reference's verdict on a request, given the keys the server holds.
+    fn want_of(store: &[RefKey], msg: &[u8], now: u64) -> (Result<(Vec<u8>, Vec<u8>), RefErr>, Option<RefKey>) {
+        let t = match rt::find(msg) {
+            rt::Found::FormErr => return (Err(RefErr::FormErr), None),
+            rt::Found::Unsigned => return (Err(RefErr::Unsigned), None),
+            rt::Found::Tsig(t) => t,
+        };
+        let k = store.iter().find(|k| w::lower(&k.name) == w::lower(&t.owner) && Alg::from_name_wire(&t.alg_name) == Some(k.alg));
+        match k {
+            Some(k) => (rt::verify(k, &Kind::Request, msg, now), Some(k.clone())),
+            // (class, TTL and other-data length come first in the reference as well)
+            None => {
+                if t.class != 255 || t.ttl != 0 || !(t.other.is_empty() || t.other.len() == 6) {
+                    (Err(RefErr::FormErr), None)
+                } else {
+                    (Err(RefErr::BadKey), None)
+                }
+            }
+        }
+    }
+
+    pub fn case(c: &mut Ctx, fam: &str, idx: u64) {
+        let mut rng = c.case_rng(fam, idx);
+        // the keys the server holds: the one of this case and up to two more
+        let keys = gen_key(&mut rng);
+        let mut store_ref: Vec<RefKey> = vec![keys.r.clone()];
+        for _ in 0..rng.below(3) {
+            let mut other = gen_key(&mut rng).r;
+            match rng.below(3) {
+                // same name, another algorithm
+                0 => {
+                    other.name = keys.r.name.clone();
+                    if other.alg == keys.r.alg {
+                        continue;
+                    }
+                    // (truncation limits stay legal for the other algorithm: they were drawn for it)
+                }
+                // same algorithm and secret, another name
+                1 => {
+                    other.alg = keys.r.alg;
+                    other.secret = keys.r.secret.clone();
+                    other.min_mac_len = keys.r.min_mac_len;
+                    other.signing_len = keys.r.signing_len;
+                }
+                _ => {}
+            }
+            if store_ref.iter().any(|k| w::lower(&k.name) == w::lower(&other.name) && k.alg == other.alg) {
+                continue;
+            }
+            store_ref.push(other);
+        }
+        let mut store: Store = HashMap::new();
+        for r in &store_ref {
+            let k = if r.name == keys.r.name && r.alg == keys.r.alg { keys.lib.clone() } else { lib_key_of(r) };
+            store.insert((k.name().clone(), k.algorithm()), k);
+        }
+        // the request
+        let l = format!("m{}", idx);
+        let mut qn = vec![l.len() as u8];
+        qn.extend_from_slice(l.as_bytes());
+        qn.extend_from_slice(b"\x04test\x00");
+        let id = rng.u16();
+        let mut pre = w::header(id, if rng.bool() { 0x0100 } else { 0 }, [1, 0, 0, 0]);
+        pre.extend_from_slice(&qn);
+        pre.extend_from_slice(&(if rng.bool() { 1u16 } else { 16 }).to_be_bytes());
+        pre.extend_from_slice(&1u16.to_be_bytes());
+        if rng.chance(1, 3) {
+            // an OPT record ahead of the TSIG record
+            pre.extend(w::compose_record(&[0], 41, 1232, 0, &[]));
+            pre[11] = 1;
+        }
+        let fault = *rng.pick(&["none", "none", "none", "none", "none", "none", "unsigned", "flip-body", "other-secret", "key-not-held", "time-behind", "time-ahead", "edit", "edit", "edit"]);
+        let now0 = now_s();
+        let fudge: u16 = 300;
+        let mut signer = keys.r.clone();
+        let mut time = now0;
+        match fault {
+            "other-secret" => signer.secret.push(7),
+            "key-not-held" => {
+                let p = signer.name.len() - 2;
+                signer.name[p] = if signer.name[p] == b'q' { b'r' } else { b'q' };
+            }
+            "time-behind" => time = now0 - 310 - rng.below(100_000) as u64,
+            "time-ahead" => time = now0 + 310 + rng.below(100_000) as u64,
+            _ => {}
+        }
+        let (mut request, _) = rt::sign(&signer, &Kind::Request, &pre, time, fudge, 0, &[]);
+        let mut label = fault.to_string();
+        match fault {
+            "unsigned" => request = pre.clone(),
+            "flip-body" => {
+                let p = 12 + rng.below(pre.len() - 12);
+                request[p] ^= 1 << rng.below(8);
+                // a flip may make the question unreadable for the library; the reference decides what it is
+            }
+            "edit" => {
+                let es = edits(&mut rng, &request, &keys.r);
+                if !es.is_empty() {
+                    let (l, m) = es[rng.below(es.len())].clone();
+                    label = format!("edit:{}", l);
+                    request = m;
+                }
+            }
+            _ => {}
+        }
+        let plan = match rng.below(16) {
+            0..=5 => Plan::Single(rng.below(40)),
+            6 => Plan::Brim,
+            7 => Plan::Greedy,
+            8..=9 => Plan::MultiFeedbackItem(rng.range(1, 40)),
+            10..=11 => Plan::MultiFeedbackOnFirst(rng.range(1, 40)),
+            12 => {
+                let k = rng.range(1, 12);
+                Plan::MultiGreedy(k, rng.below(k))
+            }
+            13 => Plan::Fails,
+            14 => Plan::Nothing,
+            _ => Plan::Single(rng.range(200, 900)),
+        };
+        let udp = rng.chance(1, 4);
+        // (no layer further out reserves anything: the middleware is documented as the outermost one)
+        let outer_reserved: u16 = 0;
+        let ex = json!({"alg": keys.r.alg.text(), "signing_len": keys.r.signing_len, "min_mac_len": keys.r.min_mac_len, "keys_held": store_ref.len(), "fault": label,
+                        "plan": format!("{:?}", plan), "udp": udp, "request": hex(&request)});
+        let rp = |c: &Ctx| c.replay_of(fam, idx, ex.clone());
+        let (want, _) = want_of(&store_ref, &request, now0);
+        // ---- run the middleware
+        let seen = Arc::new(Mutex::new(Seen::default()));
+        let inner = Inner { plan, seen: seen.clone() };
+        let Ok(reqmsg) = Message::from_octets(request.clone()) else { return };
+        let rt_ = tokio::runtime::Builder::new_current_thread().enable_all().build().unwrap();
+        let res = ctx::catch(|| {
+            rt_.block_on(async move {
+                let tctx = if udp { TransportSpecificContext::Udp(UdpTransportContext::new(Some(1232))) } else { TransportSpecificContext::NonUdp(NonUdpTransportContext::new(None)) };
+                let mut req = Request::new("127.0.0.1:5353".parse().unwrap(), tokio::time::Instant::now(), reqmsg, tctx, ());
+                if outer_reserved > 0 {
+                    req.reserve_bytes(outer_reserved);
+                }
+                let svc = TsigMiddlewareSvc::<Vec<u8>, _, Store, ()>::new(inner, store);
+                let mut stream = svc.call(req).await;
+                let mut out: Vec<Result<Option<Vec<u8>>, String>> = Vec::new();
+                while let Some(item) = stream.next().await {
+                    match item {
+                        Ok(cr) => {
+                            let (resp, _fb) = cr.into_inner();
+                            out.push(Ok(resp.map(|b| b.as_message().as_slice().to_vec())));
+                        }
+                        Err(e) => out.push(Err(format!("{:?}", e))),
+                    }
+                    if out.len() > 200 {
+                        break;
+                    }
+                }
+                out
+            })
+        });
+        let out = match res {
+            Err(pi) => {
+                c.violation(&format!("panic:{}", pi.site()), &format!("panic in the server-side TSIG middleware ({} / {:?}): {} at {}:{}", label, plan, pi.msg, pi.file, pi.line), rp(c));
+                return;
+            }
+            Ok(o) => o,
+        };
+        let now1 = now_s();
+        let seen = seen.lock().unwrap();
+        let responses: Vec<&Vec<u8>> = out.iter().filter_map(|r| r.as_ref().ok().and_then(|o| o.as_ref())).collect();
+        let errors = out.iter().filter(|r| r.is_err()).count();
+        let class = match &want {
+            Ok(_) => "authentic",
+            Err(e) => ref_class(e),
+        };
+        c.eval(&("middleware", keys.r.alg.text(), class, std::mem::discriminant(&plan), udp, label.starts_with("edit")));
+        match &want {
+            // ------------------------------------------------ authentic request
+            Ok((orig, req_mac)) => {
+                if seen.calls != 1 {
+                    c.violation("middleware:authentic-request-not-served", &format!("an authentic request ([{}]) reached the service {} times; {} responses, {} errors came back", label, seen.calls, responses.len(), errors), rp(c));
+                    return;
+                }
+                if !restored(&seen.request, orig) {
+                    c.violation("middleware:request-not-restored", &format!("the service saw {} where the request before signing was {}", hex(&seen.request), hex(orig)), rp(c));
+                    return;
+                }
+                if seen.key_name.as_ref().map(|n| w::lower(n)) != Some(w::lower(&keys.r.name)) {
+                    c.violation("middleware:key-metadata", &format!("the service was told the request was signed with {:?}; it was signed with {}", seen.key_name.as_ref().map(|n| hex(n)), hex(&keys.r.name)), rp(c));
+                    return;
+                }
+                // the TSIG record that will be added must fit into what was reserved
+                let tsig_len = keys.r.name.len() + 10 + keys.r.alg.name_wire().len() + 10 + keys.r.signing_len + 6;
+                if (seen.reserved as usize) < outer_reserved as usize + tsig_len {
+                    c.violation("middleware:reservation-too-small", &format!("{} octets are reserved on the request handed to the service ({} of them by a layer further out); the TSIG record takes {}", seen.reserved, outer_reserved, tsig_len), rp(c));
+                    return;
+                }
+                if matches!(plan, Plan::Fails) {
+                    if errors != 1 || !responses.is_empty() {
+                        c.violation("middleware:service-error-not-passed-on", &format!("the service failed; {} errors and {} responses came out", errors, responses.len()), rp(c));
+                    }
+                    return;
+                }
+                if responses.len() != seen.made.len() || errors != 0 {
+                    c.violation("middleware:response-count", &format!("the service yielded {} responses, {} came out of the middleware ({} errors)", seen.made.len(), responses.len(), errors), rp(c));
+                    return;
+                }
+                let announced = !matches!(plan, Plan::Single(_) | Plan::Brim | Plan::Greedy);
+                let mut prior: Vec<u8> = req_mac.clone();
+                for (i, (got, (made, no_room))) in responses.iter().zip(seen.made.iter()).enumerate() {
+                    let kind = if i == 0 { Kind::Response { request_mac: &prior } } else { Kind::Subsequent { prior_mac: &prior, unsigned: &[] } };
+                    // (the middleware reads the clock itself: either end of this case's span is acceptable)
+                    let v = match rt::verify(&keys.r, &kind, got, now0) {
+                        Err(RefErr::BadTime) => rt::verify(&keys.r, &kind, got, now1),
+                        o => o,
+                    };
+                    let (stripped, mac) = match v {
+                        Ok(x) => x,
+                        Err(e) => {
+                            c.violation(&format!("middleware:response-does-not-verify:{}:{}", if i == 0 { "first" } else { "subsequent" }, ref_class(&e)),
+                                &format!("response {} of {} ({:?}{}) does not verify by the reference: {}; octets {}", i + 1, responses.len(), plan, if *no_room { ", no room for the TSIG record" } else { "" }, ref_class(&e), hex(&got[..got.len().min(300)])), rp(c));
+                            return;
+                        }
+                    };
+                    if let rt::Found::Tsig(t) = rt::find(got) {
+                        if t.error != 0 || !t.other.is_empty() || t.orig_id != id {
+                            c.violation("middleware:response-tsig-fields", &format!("the TSIG record of response {} has error {}, {} octets of other data, original ID {:04x} (request ID {:04x})", i + 1, t.error, t.other.len(), t.orig_id, id), rp(c));
+                            return;
+                        }
+                    }
+                    c.count("middleware_responses_verified_by_reference", 1);
+                    if i > 0 {
+                        c.count("middleware_subsequent_messages_verified", 1);
+                    }
+                    if got.len() > 65535 {
+                        c.violation("middleware:response-too-long", &format!("a signed response of {} octets", got.len()), rp(c));
+                        return;
+                    }
+                    if *no_room && made.len() + tsig_len > 65535 {
+                        // RFC 8945 5.3: only the question and the TSIG record, TC set, NOERROR
+                        let ok = match w::parse_message(&stripped) {
+                            Ok(pm) => pm.id == id && pm.flags & 0x8000 != 0 && pm.flags & 0x0200 != 0 && pm.flags & 0x000f == 0 && pm.counts == [1, 0, 0, 0] && pm.questions.first().map(|q| w::lower(&q.name)) == Some(w::lower(&qn)),
+                            Err(_) => false,
+                        };
+                        if !ok {
+                            c.violation("middleware:truncated-response-shape", &format!("a response without room for the TSIG record must be replaced by question + TSIG with TC set and NOERROR (RFC 8945 5.3); got {}", hex(&stripped[..stripped.len().min(200)])), rp(c));
+                            return;
+                        }
+                        c.count("middleware_truncated_responses", 1);
+                    } else if stripped != *made {
+                        let tc = stripped.len() > 2 && stripped[2] & 0x02 != 0;
+                        c.violation(if tc { "middleware:needless-truncation" } else { "middleware:response-altered" },
+                            &format!("response {} of {} ({:?}): the service made {} octets that left the reserved {} free, the reference reads {} octets{} out of the signed message; made {} got {}", i + 1, responses.len(), plan, made.len(), seen.reserved, stripped.len(), if tc { " with TC set" } else { "" }, hex(&made[..made.len().min(120)]), hex(&stripped[..stripped.len().min(120)])), rp(c));
+                        return;
+                    } else if made.len() + tsig_len + (outer_reserved as usize) > 65000 {
+                        c.count("middleware_brim_full_responses_signed", 1);
+                    }
+                    prior = mac;
+                }
+                if announced && responses.len() > 1 {
+                    c.count("middleware_sequences", 1);
+                }
+                c.count("middleware_authentic_requests", 1);
+            }
+            // ------------------------------------------------ no TSIG: not the middleware's business
+            Err(RefErr::Unsigned) => {
+                if seen.calls != 1 || seen.key_name.is_some() {
+                    c.violation("middleware:unsigned-request", &format!("an unsigned request reached the service {} times, key metadata {:?}", seen.calls, seen.key_name.as_ref().map(|n| hex(n))), rp(c));
+                    return;
+                }
+                if seen.request != request {
+                    c.violation("middleware:unsigned-request-altered", "an unsigned request reached the service with other octets", rp(c));
+                    return;
+                }
+                if !matches!(plan, Plan::Fails) && (responses.len() != seen.made.len() || responses.iter().zip(seen.made.iter()).any(|(g, (m, _))| *g != m)) {
+                    c.violation("middleware:unsigned-response-altered", &format!("responses to an unsigned request were changed on their way out ({} made, {} out)", seen.made.len(), responses.len()), rp(c));
+                    return;
+                }
+                c.count("middleware_unsigned_passed_through", 1);
+            }
+            // ------------------------------------------------ a request that fails verification
+            Err(e) => {
+                if seen.calls != 0 {
+                    c.violation(&format!("middleware:bad-request-served:{}", ref_class(e)), &format!("a request that RFC 8945 makes {} ([{}]) reached the service", ref_class(e), label), rp(c));
+                    return;
+                }
+                if responses.len() != 1 {
+                    // (an internal error instead of an error response is tolerated only for a request whose question cannot be read)
+                    if errors == 1 && w::parse_message(&request).is_err() {
+                        c.count("middleware_unreadable_requests", 1);
+                        return;
+                    }
+                    c.violation(&format!("middleware:no-error-response:{}", ref_class(e)), &format!("a request that RFC 8945 makes {} ([{}]) got {} responses and {} errors", ref_class(e), label, responses.len(), errors), rp(c));
+                    return;
+                }
+                let resp = responses[0];
+                let Ok(pm) = w::parse_message(resp) else {
+                    c.violation("middleware:error-response-unparsable", &format!("the error response to [{}] cannot be parsed: {}", label, hex(resp)), rp(c));
+                    return;
+                };
+                let rcode = pm.flags & 0x000f;
+                let want_rcode = if *e == RefErr::FormErr { 1 } else { 9 };
+                if pm.id != id || pm.flags & 0x8000 == 0 || rcode != want_rcode {
+                    c.violation(&format!("middleware:error-response-header:{}", ref_class(e)), &format!("the response to a request that RFC 8945 makes {} ([{}]) has ID {:04x} (request {:04x}), flags {:04x}; RCODE {} expected", ref_class(e), label, pm.id, id, pm.flags, want_rcode), rp(c));
+                    return;
+                }
+                if *e != RefErr::FormErr {
+                    let want_err: u16 = match e {
+                        RefErr::BadSig => 16,
+                        RefErr::BadKey => 17,
+                        RefErr::BadTime => 18,
+                        RefErr::BadTrunc => 22,
+                        _ => 0,
+                    };
+                    let rt::Found::Tsig(t) = rt::find(resp) else {
+                        c.violation(&format!("middleware:error-response-without-tsig:{}", ref_class(e)), &format!("the {} response carries no TSIG record", ref_class(e)), rp(c));
+                        return;
+                    };
+                    if t.error != want_err {
+                        c.violation(&format!("middleware:error-code:{}", ref_class(e)), &format!("TSIG error {} in the response to a request that RFC 8945 makes {} ([{}])", t.error, ref_class(e), label), rp(c));
+                        return;
+                    }
+                    match e {
+                        RefErr::BadKey | RefErr::BadSig => {
+                            if !t.mac.is_empty() {
+                                c.violation(&format!("middleware:signed-error-response:{}", ref_class(e)), "RFC 8945 5.3.2: a response to a request whose key or MAC is bad must not be signed", rp(c));
+                                return;
+                            }
+                        }
+                        RefErr::BadTime => {
+                            // signed, with the client's time signed and the server's clock as other data
+                            let rt::Found::Tsig(rq) = rt::find(&request) else { return };
+                            let stripped = rt::stripped(resp, &t);
+                            let srv_time = if t.other.len() == 6 { t.other.iter().fold(0u64, |a, b| a << 8 | *b as u64) } else { u64::MAX };
+                            let want_mac = rt::mac_for(&keys.r, &Kind::Response { request_mac: &rq.mac }, &stripped, t.time, t.fudge, 18, &t.other);
+                            if t.time != rq.time || srv_time < now0 || srv_time > now1 {
+                                c.violation("middleware:badtime-response-fields", &format!("a BADTIME response carries the client's time signed ({}; got {}) and the server's clock ({}..{}; got {}) as other data", rq.time, t.time, now0, now1, srv_time), rp(c));
+                                return;
+                            }
+                            if t.mac[..] != want_mac[..keys.r.signing_len] {
+                                c.violation("middleware:badtime-response-mac", &format!("the MAC of the BADTIME response, {}, differs from the RFC 8945 computation {}", hex(&t.mac), hex(&want_mac[..keys.r.signing_len])), rp(c));
+                                return;
+                            }
+                            c.count("middleware_badtime_responses_verified", 1);
+                        }
+                        _ => {}
+                    }
+                }
+                c.count("middleware_bad_requests_answered_with_error", 1);
+            }
+        }
+    }
+}
+
 pub fn run(c: &mut Ctx) {
-    c.families(3);
+    c.families(4);
     let mut log = Log(std::fs::File::create(c.logdir.join(format!("tsig_{}.jsonl", c.shard))).ok());
     if c.shard == 0 && !c.replaying() {
         key_bounds(c);
@@ -1191,6 +1694,15 @@ pub fn run(c: &mut Ctx) {
         }
         ctx::slot_write(idx, &format!("{}|case", fam), &[]);
         wrapper::case(c, fam, idx);
+    }
+    let fam = "middleware";
+    let total = c.total(4_000, 200_000);
+    for idx in c.cases(fam, total) {
+        if c.out_of_time() {
+            break;
+        }
+        ctx::slot_write(idx, &format!("{}|case", fam), &[]);
+        middleware::case(c, fam, idx);
     }
     let fam = "exchange";
     let total = c.total(5_000, 250_000);
@@ -1211,7 +1723,7 @@ pub fn run(c: &mut Ctx) {
         sequence(c, fam, idx, &mut log);
     }
     if !c.replaying() {
-        for k in ["macs_compared", "honest_requests_verified", "honest_responses_verified", "requests_outside_window_rejected", "responses_outside_window_rejected", "badtime_responses_checked", "request_tampers", "response_tampers", "lib_server_sequences", "ref_server_sequences", "sequences_of_100_or_more", "unsigned_runs_cut_off", "poisoned_sequences_rejected", "tampered_but_authentic_by_rfc", "wrapper_honest_exchanges", "wrapper_bad_responses_refused", "wrapper_requests_verified_by_reference"] {
+        for k in ["macs_compared", "honest_requests_verified", "honest_responses_verified", "requests_outside_window_rejected", "responses_outside_window_rejected", "badtime_responses_checked", "request_tampers", "response_tampers", "lib_server_sequences", "ref_server_sequences", "sequences_of_100_or_more", "unsigned_runs_cut_off", "poisoned_sequences_rejected", "tampered_but_authentic_by_rfc", "wrapper_honest_exchanges", "wrapper_bad_responses_refused", "wrapper_requests_verified_by_reference", "middleware_authentic_requests", "middleware_responses_verified_by_reference", "middleware_subsequent_messages_verified", "middleware_sequences", "middleware_unsigned_passed_through", "middleware_bad_requests_answered_with_error", "middleware_badtime_responses_verified", "middleware_truncated_responses", "middleware_brim_full_responses_signed"] {
             c.floor(k, 3);
         }
     }
